@@ -3,15 +3,19 @@ import re
 from common import cz, cn, cbool, copt, clist, cstr, run_harness, coq_eval_bad_multi
 
 REQ = ['RasnV.Corr.C05']
-TYPES = ['INTEGER', 'BOOLEAN', 'NULL', 'OCTET STRING']
+TYPES = ['INTEGER', 'BOOLEAN', 'NULL', 'OCTET STRING', 'SEQUENCE { ix INTEGER }', 'CHOICE { ca NULL, cb BOOLEAN }',
+         'ENUMERATED { ea, eb }', 'SEQUENCE OF INTEGER']
 OPTS = ['Required', 'Optional', 'Default']
 DEFAULTS = {'INTEGER': '5', 'BOOLEAN': 'TRUE', 'NULL': 'NULL', 'OCTET STRING': "'AB'H"}
+SIMPLE = ['INTEGER', 'BOOLEAN', 'NULL', 'OCTET STRING']
 
 
 def rand_member(ck, i, allow_opt=True):
     name = ck.rng.choice(['m%d' % i, 'mem-b%d' % i, 'xY%d' % i])
     ty = ck.rng.choice(TYPES)
     opt = ck.rng.choice(OPTS) if allow_opt else 'Required'
+    if ty not in SIMPLE and opt == 'Default':
+        opt = 'Required'
     return {'name': name, 'ty': ty, 'opt': opt}
 
 
@@ -175,7 +179,7 @@ def judge(ck, cases, results):
             ck.violation('impl-violation', c['sources'][0], impl={k: v for k, v in r.items() if k != 'generated'},
                          why='legal extensible type rejected or generated code unparsable')
             continue
-        mod = [m for m in r['items'] if m.get('kind') == 'mod'][0]
+        mod = [m for m in r['items'] if m.get('kind') == 'mod' and m['name'] == 'm'][0]
         implied = c['_implied']
         tname = 'OuterInner' if c['_nested'] else 'Tt'
         if c['_kind'] in ('SEQUENCE', 'SET'):
@@ -231,6 +235,11 @@ def make_case(ck, kind):
         root, marker, adds = gen_choice(ck)
         text = t_choice(root, marker, adds)
     hdr = 'M DEFINITIONS AUTOMATIC TAGS%s ::= BEGIN\n' % (' EXTENSIBILITY IMPLIED' if implied else '')
+    if ck.rng.random() < 0.25:
+        # another module with the opposite extensibility default, generated before or after: nothing may leak
+        oname = ck.rng.choice(['A-first', 'Z-last'])
+        hdr = ('%s DEFINITIONS AUTOMATIC TAGS%s ::= BEGIN\nOo ::= SEQUENCE { x INTEGER }\nEND\n'
+               % (oname, '' if implied else ' EXTENSIBILITY IMPLIED')) + hdr
     if nested:
         src = hdr + 'Outer ::= SEQUENCE { inner %s, other BOOLEAN }\nEND\n' % text
     else:
